@@ -150,4 +150,12 @@ structure TmplHash where
   hash : String
   deriving DecidableEq, Repr, Inhabited
 
+/-- A package-level variable of reference type (`kind` = map / slice / pointer / chan / interface / sync /
+untyped) in a pipeline package outside parsers/: state that could outlive one generation. -/
+structure PackageVarSite where
+  file : String
+  name : String
+  kind : String
+  deriving DecidableEq, Repr, Inhabited
+
 end TmVerif.Facts
